@@ -207,6 +207,20 @@ func makeString(n, bytelen, runelen int) string {
 	return sb.String()
 }
 
+// And, Or, Implies evaluate both operands (no short-circuit): under the engine they
+// build one solver term instead of forking the path.
+func And(a, b bool) bool     { return a && b }
+func Or(a, b bool) bool      { return a || b }
+func Implies(a, b bool) bool { return !a || b }
+
+// IteStr is `if c then a else b` without forking.
+func IteStr(c bool, a, b string) string {
+	if c {
+		return a
+	}
+	return b
+}
+
 // Assume ends the path when c does not hold. A recorded assignment satisfies
 // every assumption, so natively a false assumption is a replay mismatch.
 func Assume(c bool) {
